@@ -420,3 +420,57 @@ func ruleRouteAdmitsIDs(w *World, r *Run, rule string) {
 	tmpl := constant.StringVal(tc.Val())
 	r.Check(strings.Count(tmpl, "%s") == 1 && strings.Count(tmpl, "%") == 1, rule, "api.HTTPGetCheckpoint | one placeholder", "", "path template "+tmpl)
 }
+
+// ruleReadAPIAs evaluates the HTTP read handler's verbatim rule (C16.a) under another property's label.
+func ruleReadAPIAs(w *World, r *Run, rule string) {
+	sub := newRun(r.Prop, r.Tier, r.Seed)
+	ruleReadAPI(w, sub)
+	n := 0
+	for _, v := range sub.verdicts {
+		if v.Rule != "C16.a" {
+			continue
+		}
+		n++
+		v.Key = rule + strings.TrimPrefix(v.Key, "C16.a")
+		v.Rule = rule
+		r.verdicts = append(r.verdicts, v)
+		r.evals++
+	}
+	for f := range sub.funcs {
+		r.funcs[f] = true
+	}
+	r.paths += sub.paths
+	if n == 0 {
+		r.Undecided(rule, fnHGetCP, "", "the read handler's rule produced no verdict")
+	}
+}
+
+
+// relabelFrom copies the verdicts of sub whose key contains keyPart into r under another rule label.
+func relabelFrom(sub, r *Run, keyPart, rule string) int {
+	n := 0
+	for _, v := range sub.verdicts {
+		if !strings.Contains(v.Key, keyPart) {
+			continue
+		}
+		n++
+		v.Key = rule + strings.TrimPrefix(v.Key, v.Rule)
+		v.Rule = rule
+		r.verdicts = append(r.verdicts, v)
+		r.evals++
+	}
+	for f := range sub.funcs {
+		r.funcs[f] = true
+	}
+	r.paths += sub.paths
+	return n
+}
+
+// C15.f: Main hands the distributor every configured log (a log left out is never pushed, and nothing reports it).
+func ruleDistributorGetsAllLogs(w *World, r *Run, rule string) {
+	sub := newRun(r.Prop, r.Tier, r.Seed)
+	ruleOneWitness(w, sub, "C17.b")
+	if relabelFrom(sub, r, "distributor gets every configured log", rule) == 0 {
+		r.Undecided(rule, fnMain+" | distributor gets every configured log", "", "no path of Main hands a log list to the distributor")
+	}
+}
